@@ -26,7 +26,7 @@ Ltac gen_eq := intros; cbv beta delta [bridge_admit handler_enabled convert_logs
   cbn [lookupZ]; split_tests; subst; try reflexivity; try lia; try discriminate.
 
 Lemma gen_bridge_admit f s l : bridge_admit f s l = bridge_admit_model fix_bridge f s l.
-Proof. gen_eq. Qed.
+Proof. first [reflexivity | gen_eq]. Qed.
 Lemma gen_handler_enabled m f z : handler_enabled m f z = handler_enabled_ref m f z.
 Proof. gen_eq. Qed.
 Lemma gen_convert_logslog_level m z : convert_logslog_level m z = convert_logslog_level_ref m z.
